@@ -97,9 +97,29 @@ def late_frame():
     return _late[-1]
 
 
+def failing_frames():
+    """Frames whose axes are known but whose origin is not defined at the dates of the generated objects:
+    VF15chief (a two-hour table of 1990 registered with Ephem.as_frame), VF15mute (an orbit without propagator);
+    VF15chiefQ has local QSW axes, so the rotation needs the reference as well (fails before anything moved)."""
+    from beyond.dates import Date, timedelta
+    from beyond.frames import frames
+    from beyond.orbits import Orbit
+
+    if "VF15chief" in frames.dynamic:
+        return
+    t0 = Date(1990, 1, 1)
+    el = [7000e3, 0.001, 0.9, 0.3, 0.2, 0.1]
+    chief = Orbit(el, t0, "keplerian", "EME2000", "Kepler")
+    chief.ephem(start=t0, stop=timedelta(hours=2), step=timedelta(minutes=3)).as_frame("VF15chief", exists_warning=False)
+    chief.ephem(start=t0, stop=timedelta(hours=2), step=timedelta(minutes=3)).as_frame(
+        "VF15chiefQ", orientation="QSW", exists_warning=False)
+    Orbit(el, t0, "keplerian", "EME2000", None).as_frame("VF15mute", exists_warning=False)
+
+
 def setup(shard):
     env.eop("missing-pass")
     sister_frames()
+    failing_frames()
 
 
 # ------------------------------------------------------------------ building objects
@@ -828,6 +848,18 @@ class Machine:
                 tol = FAIL_TOL if s["form"] != "cartesian" else None
             else:
                 call = lambda: o.copy(frame="Hill")  # noqa: E731
+        elif name == "late_fail":
+            from beyond.errors import UnknownPropagatorError
+
+            expect = UnknownPropagatorError if op["target"] == "VF15mute" else ValueError
+            if op["via"] == "set":
+                call = lambda: setattr(o, "frame", op["target"])  # noqa: E731
+                tol = FAIL_TOL if s["form"] != "cartesian" else None
+            else:
+                call = lambda: o.copy(frame=op["target"])  # noqa: E731
+            self.labels.append("late-failure:cov-" + ("none" if s["cov"] is None else
+                                                    "own-frame" if s["cov"][0] == s["frame"] else
+                                                    "local" if s["cov"][0] in ("QSW", "TNW") else "other-frame"))
         else:
             foreign = S.foreign_names(s["form"])
             nm = foreign[op["k"] % len(foreign)]
@@ -836,6 +868,8 @@ class Machine:
             call = {"get_attr": lambda: getattr(o, nm), "get_item": lambda: o[nm],
                     "set_attr": lambda: setattr(o, nm, 1.0), "set_item": lambda: o.__setitem__(nm, 1.0)}[how]
         label = f"{name}:{op.get('via') or op.get('how')}"
+        if name == "late_fail":
+            label = f"late_fail:{op['target']}:{op['via']}"
         try:
             call()
         except expect:
@@ -943,15 +977,6 @@ FINDINGS = {
     "c15-pickle-cov-data-lost":
         lambda facet, case, kind, msg, data: kind == "pickle:cov-data-lost" and "pickle" in _ops(case)
         and (any(i["cov"] for i in case["init"]) or "attach_cov" in _ops(case)),
-    "c15-cov-from-integers":
-        lambda facet, case, kind, msg, data: kind == "cov-values-as-given:integers"
-        and any((i["cov"] or {}).get("as") in ("ints", "int64") for i in case["init"])
-        or kind == "cov-values-as-given:integers"
-        and any(o["op"] == "attach_cov" and o["cov"].get("as") in ("ints", "int64") for o in case["ops"]),
-    "c15-keplernum-copy-drops-tol":
-        lambda facet, case, kind, msg, data: kind == "keplernum-copy-drops-tol"
-        and any(str(x).startswith("KeplerNum:") and not str(x).endswith(":0.001")
-                for x in [i["prop"] for i in case["init"]] + [o.get("prop") for o in case["ops"]]),
     "c15-as-orbit-shares-data":
         lambda facet, case, kind, msg, data: kind in ("aliasing:as_orbit", "aliasing:as_statevector")
         and _maker_then_mutation(case, ("as_orbit", "as_statevector")),
